@@ -2,7 +2,7 @@
 From CV Require Import Proofs.SchedP5.
 From CV Require Import Model.Base Model.Events Model.Contract Model.Combinators Model.Stats Model.StatsSpec Model.Pipeline
   Proofs.BaseP Proofs.StatsP Proofs.PipelineP Proofs.PipelineP2.
-From CV Require Proofs.StatsP3.
+From CV Require Proofs.PipelineP3 Proofs.StatsP3 Proofs.Compose Proofs.SchedP4 Proofs.SchedP7 Model.Sched.
 
 (* the verdict of a Summarize over ANY stream is: a parser error, a final step failure or a final hook
    failure occurred — outside known-finding class K01a (a hook failing in an attempt that is retried) *)
@@ -84,3 +84,51 @@ Theorem C01_libtest_counts_nothing_before_parsing_finished :
     lt_getters (StatsP3.lt_final es) = mk_getters 0 0 0 0 0 0 /\ lt_buf (StatsP3.lt_final es) = es /\
     g_has_failed (lt_getters (StatsP3.lt_final es)) = false.
 Proof. exact StatsP3.lt_nothing_without_parsing_finished. Qed.
+
+(* FROM THE SCHEDULER TO THE VERDICT: for every complete run of the scheduler model (any configuration, any schedule —
+   "every interleaving of concurrently running scenarios") the default pipeline reports failed iff the run's own stream
+   contains a parser error, a final step failure or a final hook failure (outside K01a) *)
+Theorem C01_runner_to_verdict :
+  forall tags_of last_own q cf ls s tr (es : list (N * ev)),
+    Sched.exec cf ls = Some (s, tr) -> NoDup (SchedP7.feature_ids ls) -> NoDup (SchedP4.inserted_ids ls) ->
+    Sched.pc s = Sched.Done -> map snd es = tr ->
+    k_hook_in_retried (before_finished tr) = false ->
+    qfailed (QNorm (QSumm q)) (qfinal tags_of last_own (QNorm (QSumm q)) es) = spec_failed tr.
+Proof. exact Compose.runner_to_verdict. Qed.
+Print Assumptions C01_runner_to_verdict.
+
+(* EVERY BUILT-IN STATISTICS PIPELINE. `SP` is the grammar of pipelines: Summarize over anything, Libtest, and Normalize,
+   FailOnSkipped, Repeat, Tee and Or around such pipelines, nested arbitrarily (the two sides of an Or free of Normalize:
+   PipelineP3 shows by a witness that a Normalize under an Or, which receives a stream that no longer obeys the
+   contract, can lose a failure). `plain q`: no FailOnSkipped inside, no Libtest under an Or. For every complete stream
+   obeying the Runner contract (with ParsingFinished: Libtest counts nothing before it) the verdict of the whole pipeline
+   is the specified one ... *)
+Theorem C01_verdict_of_every_pipeline :
+  forall tags_of last_own q es,
+    PipelineP3.SP q -> PipelineP3.plain q = true -> contract (map snd es) = true ->
+    existsb StatsP3.is_parsing_finished (map snd es) = true ->
+    k_hook_in_retried (before_finished (map snd es)) = false ->
+    qfailed q (qfinal tags_of last_own q es) = spec_failed (map snd es).
+Proof. exact PipelineP3.verdict_plain_pipeline_spec. Qed.
+Print Assumptions C01_verdict_of_every_pipeline.
+
+(* ... and with FailOnSkipped on top: the specified verdict of the stream in which the skipped steps of the scenarios the
+   predicate selects (by default those not tagged @allow.skipped) count as failed *)
+Theorem C01_verdict_of_every_pipeline_under_fail_on_skipped :
+  forall tags_of last_own k p es,
+    PipelineP3.SP p -> PipelineP3.plain p = true -> contract (map snd es) = true ->
+    existsb StatsP3.is_parsing_finished (map snd es) = true ->
+    k_hook_in_retried (before_finished (map snd es)) = false ->
+    qfailed (QFos k p) (qfinal tags_of last_own (QFos k p) es) =
+    spec_failed (map (fos_ev (should_fail tags_of k)) (map snd es)).
+Proof. exact PipelineP3.verdict_fos_pipeline_spec. Qed.
+Print Assumptions C01_verdict_of_every_pipeline_under_fail_on_skipped.
+
+(* the general form: for ANY pipeline of the grammar (FailOnSkipped anywhere, Libtest under Or, ...) the verdict is the
+   recursively specified `qspec` *)
+Theorem C01_verdict_of_every_pipeline_general :
+  forall tags_of last_own q es,
+    PipelineP3.SP q -> contract (map snd es) = true ->
+    qfailed q (qfinal tags_of last_own q es) = PipelineP3.qspec tags_of q es.
+Proof. exact PipelineP3.verdict_of_every_pipeline. Qed.
+Print Assumptions C01_verdict_of_every_pipeline_general.
